@@ -162,6 +162,7 @@ class _Ctx:
         self.outs = []           # objects handed out by transform / normalized_as (documented: a new object)
         self.models = []         # [model handed out, json snapshot, where]
         self.owners = set()
+        self.deferred = None     # a listed finding met on the way (raised when the case is done)
 
     # -- entering
     def keep(self, v, name, owner):
@@ -248,9 +249,12 @@ class _Ctx:
             elif isinstance(x, list) and x and isinstance(x[0], list):
                 _double_nested(x)
                 labels.add('caller_overwrote')
-            elif hasattr(x, 'json') and route == 'model':
+            elif hasattr(x, 'json') and route == 'model' and 'Cij' in x.find('elastic-constants'):
                 term = x.find('elastic-constants')['Cij']
                 term['value'] = [v * 2 for v in term['value']]
+                for m in self.models:
+                    if m[0] is x:
+                        m[1] = x.json()
                 labels.add('caller_overwrote')
             else:
                 continue
@@ -266,12 +270,15 @@ class _Ctx:
             term = m[0].find('elastic-constants')['Cij']
             term['value'] = [0.0 for _ in term['value']]
             m[1] = m[0].json()
+            for rec in self.inputs:
+                if rec[0] is m[0]:
+                    rec[1] = _snap_input(rec[0])
         self.verify('after the caller overwrote what it had handed in and re-defined what it was handed')
         for route, x, where in reuse[:2]:
             exp = _rep_to_cij(route, x)
             if not bool(np.all(np.isfinite(exp))) or float(exp.max()) <= 0 or float(np.linalg.cond(exp)) > 1e6:
                 continue
-            ec = am.ElasticConstants(**{route: x})
+            ec = _define(None, route, x, 'object built from the container handed in as %s after the caller overwrote it' % where)
             _close(ec.Cij, exp, 1e-8 * float(np.abs(exp).max()), 'object built from the container handed in as %s after the caller '
                    'overwrote it in place: Cij against my own reading of its content' % where)
             labels.add('caller_reused')
@@ -289,6 +296,8 @@ def _ledgered(fn):
         try:
             labels = set(fn(case))
             _CTX.finish(labels)
+            if _CTX.deferred is not None:
+                raise _CTX.deferred
             prev = list(_PREV)
             _PREV[:] = [(r[0], r[1], r[2]) for r in _CTX.results[-12:]]
             for v, snap, where in prev:
@@ -410,6 +419,26 @@ def check_reps(ec, mine, cond, floor, eps_t, what, order=0, scribble=None):
 # ----------------------------------------------------------------------------- input forms, object histories
 
 KEY_RO = _key('Cij-setter:read-only-input')
+KEY_SYM = _key('Cijkl-Sijkl-setter:symmetry-atol-in-working-units')
+
+
+def _symmetrised4(a, route):
+    """the 4-index array with exactly equal symmetry-related entries (through a symmetrised 6x6 and my placement maps)"""
+    if route == 'Cijkl':
+        v = el.tensor_to_voigt(a)
+        return el.voigt_to_tensor((v + v.T) / 2)
+    v = el.compliance_tensor_to_voigt(a)
+    return el.compliance_voigt_to_tensor((v + v.T) / 2)
+
+
+def _sym_noise_only(arg):
+    """a 4-index array whose minor / major symmetries hold to rounding (1e-12 of the largest entry) but not to 1e-8 in
+    absolute terms: large numbers"""
+    a = np.array(arg, dtype=float)
+    if a.shape != (3, 3, 3, 3):
+        return False
+    d = el.symmetry_defect(a)
+    return bool(5e-9 < d <= 1e-12 * float(np.abs(a).max()))
 IN_FORMS = ('array', 'array', 'list', 'list', 'tuple', 'forder', 'strided', 'readonly', 'int', 'intlist')
 _inform = st.sampled_from(IN_FORMS)
 NUMS = ('npfloat', 'float', 'int', 'npint', 'float', 'npfloat')
@@ -667,6 +696,20 @@ def _define(ec, route, arg, what):
         if _CTX is not None:
             _CTX.inputs_unchanged()
         return _track(ec, what)
+    except AssertionError as e:
+        if route in ('Cijkl', 'Sijkl') and str(e) == '' and _sym_noise_only(arg):
+            a = np.array(arg, dtype=float)
+            v = Violation('%s: %s raised AssertionError() from its symmetry check for an array that has the minor and major symmetries '
+                          'to rounding (defect %.3g, largest entry %.3g): the check uses numpy.isclose with its default absolute '
+                          'tolerance 1e-8 - a number in working units - so terms that vanish by symmetry and hold rounding noise '
+                          'above 1e-8 are refused when the numbers are large' % (what, route, el.symmetry_defect(a), float(np.abs(a).max())),
+                          key=KEY_SYM)
+            if _CTX is None:
+                raise v
+            # the finding is reported at the end of the case; the search goes on with the exactly symmetrised array
+            _CTX.deferred = _CTX.deferred or v
+            return _define(ec, route, _symmetrised4(a, route), what)
+        raise
     except ValueError as e:
         if route in ('Cij', 'Cij9') and isinstance(arg, np.ndarray) and not arg.flags.writeable and 'read-only' in str(e):
             raise Violation('%s: %s given as a read-only float64 array raised ValueError(%s): the Cij setter zeroes small '
@@ -703,7 +746,9 @@ def _touch(ec, t, C6, mine, info, what):
     elif t == 'str':
         str(ec)
     elif t == 'model':
-        ec.model()
+        m = ec.model()
+        if _CTX is not None:
+            _CTX.model_out(m, 'model() of ' + what)
     else:
         raise HarnessError('unknown touch %r' % (t,))
 
@@ -1316,38 +1361,350 @@ def oracle_history(case):
     return labels
 
 
+
+# ----------------------------------------------------------------------------- units (working-unit configurations)
+# ElasticConstants holds plain numbers in working units; the only unit-aware code is model(): model(unit=) converts out
+# of, model(model=) / ElasticConstants(model=) into working units.  The case's tensor is a PHYSICAL one (its numbers are
+# GPa); under a configuration its working-unit numbers are those times my own size of a GPa (a product of numericalunits
+# attributes).  The whole judged sequence runs under `pre` (default units or another configuration), then in the same
+# process under W; the models written under W are read under R.  Every object and array of the earlier stages is in the
+# ledger: a reset must not move them.  The default configuration is always restored.
+
+from .. import gens_c08 as G8                     # configurations, apply_units (shared with C07 / C08)
+
+PRESSURE_UNITS = ('GPa', 'MPa', 'Pa', 'bar', 'kbar', 'eV/angstrom^3', 'J/m^3', 'N/m^2', 'mJ/m^2/angstrom', 'kPa')
+
+
+def _own(u):
+    """size of the unit string u in the working units active now: my own product of numericalunits attributes"""
+    import numericalunits as nu
+    Pa = nu.kg / (nu.m * nu.s ** 2)
+    return {'GPa': 1e9 * Pa, 'MPa': 1e6 * Pa, 'Pa': Pa, 'bar': 1e5 * Pa, 'kbar': 1e8 * Pa, 'kPa': 1e3 * Pa,
+            'eV/angstrom^3': nu.eV / nu.angstrom ** 3, 'J/m^3': nu.J / nu.m ** 3, 'N/m^2': nu.N / nu.m ** 2,
+            'mJ/m^2/angstrom': nu.mJ / nu.m ** 2 / nu.angstrom}[u]
+
+
+def _restore_units():
+    import atomman.unitconvert as uc
+    uc.reset_units(length='angstrom', mass='amu', energy='eV', charge='e')
+
+
+_pre_kind = st.sampled_from(('default', 'other', 'none', 'default'))
+_punit = st.sampled_from(PRESSURE_UNITS)
+WROUTES = REPS + ('named', 'model', 'model_unit', 'model_unit', 'model_old', 'model_old')
+_wroute = st.sampled_from(WROUTES)
+_menc = st.sampled_from(('dm', 'json', 'dm'))
+
+
+@st.composite
+def units_cases(draw):
+    W, pk, P, cr, R = draw(G8.S_CFG), draw(_pre_kind), draw(G8.S_CFG), draw(_bool), draw(G8.S_CFG)
+    if pk == 'default':
+        pre, W = G8.DEFAULT_CFG, G8._other_than(W, G8.DEFAULT_CFG)
+    else:
+        pre = G8._other_than(P, W) if pk == 'other' else None
+    return {'T': draw(_tensors_old), 'plan': {'pre': pre, 'W': W, 'R': G8._other_than(R, W) if cr else None}, 'unit': draw(_punit),
+            'wroute': draw(_wroute), 'inform': draw(_inform), 'form': draw(_formidx), 'num': draw(_num), 'enc': draw(_menc),
+            'rot': draw(_rot_old), 'strain': draw(g.strains()), 'order': draw(_order), 'back': draw(_bool), 'caller': draw(_caller),
+            'noisy': draw(_bool)}
+
+
+def _my_model(T, C6, u, old, enc):
+    """a data model of the physical tensor (numbers C6 in GPa) written by me in unit u: the documented 'Cij' layout or the
+    older list of named constants ('C': [{'stiffness': {'value', 'unit'}, 'ij': 'i j'}, ...])"""
+    from DataModelDict import DataModelDict as DM
+    r = _own('GPa') / _own(u)                          # a pure number: GPa in units of u
+    if old:
+        kw = g.kwargs_of(T) if T['kind'] == 'named' else g.constants(T)
+        d = {'elastic-constants': {'C': [{'stiffness': {'value': float(v) * r, 'unit': u}, 'ij': '%s %s' % (n[1], n[2])}
+                                         for n, v in kw.items()]}}
+    else:
+        d = {'elastic-constants': {'Cij': {'value': (C6 * r).flatten().tolist(), 'shape': [6, 6], 'unit': u}}}
+    return json.dumps(d) if enc == 'json' else DM(d)
+
+
+def _units_stage(case, labels, stage):
+    """build, judge, write models - under the configuration active now.  Returns (object, model with unit, model without,
+    my Voigt matrix in the working units of this stage)"""
+    import atomman as am
+    T0 = case['T']
+    f = _own('GPa')
+    T = g.scaled_case(T0, f) if f != 1.0 else T0
+    C6 = g.cij(T)
+    mine = mine_of(C6)
+    info = _info(C6, mine)
+    u, wroute = case['unit'], case['wroute']
+    what = 'object built %s' % stage
+    if wroute in ('model_unit', 'model_old'):
+        ec = _define(None, 'model', _my_model(T0, g.cij(T0), u, wroute == 'model_old', case['enc']), what + ' from my data model in %s' % u)
+        labels.add('w' + wroute)
+    else:
+        route, arg = _payload(T, C6, mine, wroute, case['inform'], case['form'], case['num'], labels)
+        if route == 'Cijkl' and case.get('noisy'):
+            # a stiffness tensor as a caller computes it: rotated there and back with numpy (symmetric to rounding, like
+            # my Sijkl, which comes from an unsymmetrised inverse)
+            arg, _ = _form(el.rotate_tensor(el.rotate_tensor(mine['Cijkl'], GENERIC_R), GENERIC_R.T), case['inform'])
+            labels.add('noisy_Cijkl')
+        ec = _define(None, route, arg, what)
+    eps_t = np.array(case['strain'], dtype=float)
+    check_reps(ec, mine, info['cond'], info['floor'], eps_t, what, case['order'])
+    R = _rotmat(case['rot'])
+    exp = el.rotate_voigt(C6, R)
+    big = max(info['cmax'], float(np.abs(exp).max()))
+    tr = _transform(ec, np.array(R), exp, 'transform %s' % stage)
+    _close(_get(tr, 'Cij', (6, 6)), exp, 1e-7 * big, 'transform(%r) %s against my own rotation' % (case['rot'], stage))
+    _touch(ec, 'bulk', C6, mine, info, what)
+    _touch(ec, 'shear', C6, mine, info, what)
+    if T0['kind'] == 'named':
+        s = T0['system']
+        if s != 'monoclinic':
+            require(bool(ec.is_normal(s)), lambda: '%s: is_normal(%s) is False for a tensor built from %s constants' % (what, s, s))
+    # the documented default tolerances of is_normal are plain numbers (atol = 1e-4 in working units)
+    N = _get(ec.normalized_as('cubic'), 'Cij', (6, 6))
+    own = _get(ec, 'Cij', (6, 6))
+    d, allow = np.abs(own - N), 1e-4 + 1e-4 * np.abs(N)
+    verdict = bool(ec.is_normal('cubic'))
+    if np.all(d <= 0.1 * allow):
+        require(verdict, lambda: '%s: is_normal(cubic) is False although the tensor equals its normalisation within %.3g' % (what, float(d.max())))
+    elif np.any(d >= 10 * allow):
+        require(not verdict, lambda: '%s: is_normal(cubic) is True although the tensor differs from its normalisation by %.3g' % (what, float(d.max())))
+    # models
+    mu = _CTX.model_out(ec.model(unit=u), 'model(unit=%r) %s' % (u, stage)) if _CTX is not None else ec.model(unit=u)
+    term = mu['elastic-constants']['Cij']
+    require(term.get('unit') == u and list(term.get('shape', [])) == [6, 6], lambda: '%s: model(unit=%r) stores unit %r, shape %r'
+            % (what, u, term.get('unit'), term.get('shape')))
+    vals = np.array(term['value'], dtype=float).reshape(6, 6)
+    _close(vals * _own(u), C6, info['tolC'], '%s: the numbers of model(unit=%r) times my own size of that unit, against my working-unit matrix' % (what, u))
+    m0 = _CTX.model_out(ec.model(), 'model() %s' % stage) if _CTX is not None else ec.model()
+    t0 = m0['elastic-constants']['Cij']
+    require('unit' not in t0, lambda: '%s: model() without a unit stores unit %r' % (what, t0.get('unit')))
+    plain = np.array(t0['value'], dtype=float).reshape(6, 6)
+    require(np.array_equal(plain, own), lambda: '%s: model() without a unit does not hold the numbers of Cij:\n%r\n%r' % (what, plain, own))
+    return ec, mu, m0, own
+
+
+def oracle_units(case):
+    import atomman as am
+    import atomman.unitconvert as uc
+    plan = case['plan']
+    T0 = case['T']
+    labels = g.labels_of(T0)
+    labels.add('units_' + plan['W']['kind'])
+    eps_t = np.array(case['strain'], dtype=float)
+    try:
+        if plan['pre'] is not None:
+            G8.apply_units(uc, plan['pre'])
+            _units_stage(case, labels, 'under %s' % G8_text(plan['pre']))
+            labels.add('units_pre_default' if plan['pre'] == G8.DEFAULT_CFG else 'units_pre_other')
+        G8.apply_units(uc, plan['W'])
+        whereW = 'under %s%s' % (G8_text(plan['W']), '' if plan['pre'] is None else ' after the same under %s in the same process' % G8_text(plan['pre']))
+        fW = _own('GPa')
+        ecW, mu, m0, ownW = _units_stage(case, labels, whereW)
+        if abs(fW / 0.0062415090744607615 - 1) > 1e-3:
+            labels.add('units_GPa_differs')            # a GPa is not the 0.00624 eV/angstrom^3 of the default configuration
+        if plan['R'] is not None:
+            G8.apply_units(uc, plan['R'])
+            whereR = 'under %s, from the model written %s' % (G8_text(plan['R']), whereW)
+            fR = _own('GPa')
+            T = g.scaled_case(T0, fR) if fR != 1.0 else T0
+            C6 = g.cij(T)
+            mine = mine_of(C6)
+            info = _info(C6, mine)
+            # the model that names its unit describes the physical tensor
+            target = ecW if case['back'] else None          # (the object that wrote the model is re-defined from it)
+            ec2 = _define(target, 'model', mu, 'object defined %s' % whereR)
+            check_reps(ec2, mine, info['cond'], info['floor'], eps_t, 'object defined %s' % whereR, case['order'])
+            # the model without a unit holds plain numbers
+            ec3 = _define(None, 'model', m0, 'object defined under %s from the unit-less model written %s' % (G8_text(plan['R']), whereW))
+            got = _get(ec3, 'Cij', (6, 6))
+            require(np.array_equal(got, ownW), lambda: 'a model written without a unit %s read under %s: the numbers changed\n%r\n%r'
+                    % (whereW, G8_text(plan['R']), ownW, got))
+            labels.add('units_cross')
+            if abs(fR / fW - 1) > 1e-3:
+                labels.add('units_cross_differs')
+    finally:
+        _restore_units()
+    if plan['pre'] is not None or plan['R'] is not None:
+        labels.add('nt')
+    return labels
+
+
+def G8_text(cfg):
+    if cfg['kind'] == 'named':
+        return 'reset_units(%s)' % ', '.join('%s=%r' % kv for kv in cfg['units'].items())
+    return 'reset_units(seed=%r)' % ('SI' if cfg['kind'] == 'SI' else cfg['seed'])
+
+
+# ----------------------------------------------------------------------------- combos (enumerated)
+# Every ordered pair of definition routes of ONE object, with every kind of read in between and every representation read
+# first afterwards; every isotropic modulus pair x alias spelling x keyword order x number type, on fresh and on re-used
+# objects; every (unit, crystal_system) option pair of model() on a tensor of every crystal system, followed by a full
+# look at the object and both ways of reading the model back; every (source system, target system) pair of
+# normalized_as / is_normal.  Enumerated, not sampled; judged by the oracles of the sampled clauses.
+
+def _named_T(system, **k):
+    return {'kind': 'named', 'system': system, 'C': {n: float(v) for n, v in k.items()}}
+
+
+FIXED = {
+    'isotropic': _named_T('isotropic', E=200.0, nu=0.3),
+    'cubic': _named_T('cubic', C11=168, C12=121, C44=75),
+    'hexagonal': _named_T('hexagonal', C11=160, C12=90, C13=66, C33=180, C44=47),
+    'tetragonal': _named_T('tetragonal', C11=275, C12=179, C13=152, C16=12, C33=165, C44=54, C66=113),
+    'rhombohedral': _named_T('rhombohedral', C11=210, C12=80, C13=65, C14=-22, C15=9, C33=240, C44=70),
+    'orthorhombic': _named_T('orthorhombic', C11=320, C12=70, C13=72, C22=195, C23=76, C33=230, C44=63, C55=77, C66=79),
+    'monoclinic': _named_T('monoclinic', C11=180, C12=60, C13=70, C15=9, C22=200, C23=65, C25=-7, C33=210, C35=11, C44=60, C46=5,
+                           C55=70, C66=65),
+}
+FIXED['rotated'] = g.rotate_case(FIXED['orthorhombic'], [[1, 2, -2], 31.0])
+FIXED_NAMES = tuple(FIXED)
+for _n, _T in FIXED.items():
+    _w = np.linalg.eigvalsh(g.cij(_T))
+    assert _w[0] > 2e-3 * _w[-1], _n
+COMBO_ROUTES = REPS + ('named', 'model')
+COMBO_TOUCHES = (None,) + tuple(sorted(set(TOUCHES)))
+COMBO_PAIRS = {'quick': (('rhombohedral', 'rotated'),), 'thorough': (('rhombohedral', 'rotated'), ('rotated', 'cubic'), ('monoclinic', 'hexagonal'))}
+COMBO_ISO = ((200.0, 0.3), (7.5, 0.0), (0.0123, 0.49), (3.1e7, 1e-6))
+COMBO_UNITS = (None, 'GPa', 'eV/angstrom^3', 'bar')
+COMBO_STRAIN = [[0.01, -0.004, 0.002], [-0.004, -0.02, 0.007], [0.002, 0.007, 0.013]]
+
+
+def combo_list(tier):
+    out = []
+    for x, y in COMBO_PAIRS[tier]:
+        for r1 in COMBO_ROUTES:
+            for t in COMBO_TOUCHES:
+                for r2 in COMBO_ROUTES:
+                    for first in range(5):
+                        out.append({'combo': 'redefine', 'x': x, 'y': y, 'r1': r1, 'touch': t, 'r2': r2, 'first': first})
+    for alias in itertools.product((False, True), repeat=3):
+        for order in (False, True):
+            for num in ('float', 'npfloat'):
+                for E, nu in COMBO_ISO:
+                    for reuse in (False, True):
+                        out.append({'combo': 'isotropic', 'alias': list(alias), 'order': order, 'num': num, 'E': E, 'nu': nu, 'reuse': reuse})
+    for src in FIXED_NAMES:
+        for u in COMBO_UNITS:
+            for cs in (None,) + NORM_SYSTEMS + ('monoclinic',):
+                out.append({'combo': 'model', 'src': src, 'unit': u, 'cs': cs})
+        for tgt in NORM_SYSTEMS + ('monoclinic',):
+            for how in ('Cij', 'named'):
+                out.append({'combo': 'normalize', 'src': src, 'tgt': tgt, 'how': how})
+    return out
+
+
+def _combo_model(c, labels):
+    import atomman as am
+    T = FIXED[c['src']]
+    C6 = g.cij(T)
+    mine = mine_of(C6)
+    info = _info(C6, mine)
+    u, cs = c['unit'], c['cs']
+    what = 'model(unit=%r, crystal_system=%r) of a %s tensor' % (u, cs, c['src'])
+    ec = _define(None, 'Cij', np.array(C6), 'object holding a %s tensor' % c['src'])
+    kw = {}
+    if u is not None:
+        kw['unit'] = u
+    if cs is not None:
+        kw['crystal_system'] = cs
+    try:
+        m = ec.model(**kw)
+    except ValueError as e:
+        if cs == 'monoclinic' and 'Invalid crystal_system' in str(e):
+            check_reps(ec, mine, info['cond'], info['floor'], np.array(COMBO_STRAIN), 'the object after the refused ' + what)
+            return labels | {'refusal'}
+        raise
+    if _CTX is not None:
+        _CTX.model_out(m, what)
+    term = m['elastic-constants']['Cij']
+    require(term.get('unit') == u, lambda: '%s stores unit %r' % (what, term.get('unit')))
+    M6 = np.array(term['value'], dtype=float).reshape(6, 6) * (_own(u) if u is not None else 1.0)
+    system = cs or 'triclinic'
+    N = _get(ec.normalized_as(system), 'Cij', (6, 6))
+    _close(M6, N, info['tolC'], '%s: numbers (times my own size of the unit) against normalized_as(%s)' % (what, system))
+    if system != 'triclinic':
+        _close(M6, g.place(system, _consts_from(system, M6)), info['tolC'], '%s: numbers against the %s placement of its own constants' % (what, system))
+        if float(np.abs(M6 - C6).max()) > 1e-3 * info['cmax']:
+            labels.add('nt')                                   # the option changes the tensor written
+    # writing a model, with whatever options, leaves the object alone
+    check_reps(ec, mine, info['cond'], info['floor'], np.array(COMBO_STRAIN), 'the object after ' + what)
+    # both ways of reading the model back
+    ec2 = _define(None, 'model', m, 'new object from the ' + what)
+    _close(_get(ec2, 'Cij', (6, 6)), M6, info['tolC'], 'new object from the %s: Cij' % what)
+    ec = _define(ec, 'model', m, 'the same object re-defined from its own ' + what)
+    _close(_get(ec, 'Cij', (6, 6)), M6, info['tolC'], 'the same object re-defined from its own %s: Cij' % what)
+    m2 = ec.model(**kw)
+    again = np.array(m2['elastic-constants']['Cij']['value'], dtype=float).reshape(6, 6) * (_own(u) if u is not None else 1.0)
+    _close(again, M6, info['tolC'], '%s written, read and written again' % what)
+    return labels
+
+
+def oracle_combos(c):
+    kind = c['combo']
+    labels = {'combo_' + kind}
+    if kind == 'redefine':
+        step = {'inform': 'array', 'form': 0, 'num': 'float', 'scribble': None}
+        case = {'empty': False, 'look0': [], 'rot': [[1, 2, 3], 41.0], 'strain': COMBO_STRAIN, 'caller': 0, 'steps': [
+            dict(step, T=FIXED[c['x']], route=c['r1'], look=[c['touch']] if c['touch'] else [], full=False, order=0),
+            dict(step, T=FIXED[c['y']], route=c['r2'], look=[], full=True, order=24 * c['first'])]}
+        return labels | set(oracle_history(case))
+    if kind == 'isotropic':
+        case = {'T': g.scaled_case(_named_T('isotropic', E=1.0, nu=c['nu']), c['E']), 'alias': c['alias'], 'npfloat': c['num'] == 'npfloat',
+                'rot': [[2, -1, 3], 77.0], 'order': c['order'], 'num': c['num'], 'reuse': c['reuse'], 'pre': None, 'look': 0x5555}
+        return labels | set(oracle_isotropic(case))
+    if kind == 'normalize':
+        case = {'T': FIXED[c['src']], 'system': c['tgt'], 'how': c['how'], 'pre': None, 'route': 'Cij', 'inform': 'array', 'form': 0,
+                'num': 'float', 'tols': [1e-6, 1e-6]}
+        return labels | set(oracle_normalize(case))
+    if kind == 'model':
+        return _combo_model(c, labels)
+    raise HarnessError('unknown combo %r' % (kind,))
+
+
 CLAUSES = [
-    Clause('reps', oracle_reps, reps_cases, quick=4500, thorough=100000,
+    Clause('reps', _ledgered(oracle_reps), reps_cases, quick=4500, thorough=100000,
            min_share={'nt': 0.2, 'reps_differ': 0.4, 'list': 0.25, 'via_Sijkl': 0.08, 'then_Cij9': 0.08, 'pre_looked': 0.1, 'pre_empty': 0.04,
                       'scribble': 0.2, 'near_iso': 0.1, 'scale_small': 0.1, 'scale_large': 0.04, 'in_readonly': 0.02, 'in_strided': 0.04,
                       'in_forder': 0.03},
            desc='build from one of Cij/Sij/Cij9/Cijkl/Sijkl, read all five against independent Voigt maps and compliance '
                 'weights; minor/major symmetries; Cijkl:Sklmn = symmetric identity; one stress-strain law through all five; '
                 'rebuild from atomman\'s own output of a second representation'),
-    Clause('named', oracle_named, named_cases, quick=3500, thorough=90000,
+    Clause('named', _ledgered(oracle_named), named_cases, quick=3500, thorough=90000,
            min_share={'nt': 0.4, 'how_method': 0.15, 'nonunit_axes': 0.15, 'how_reuse': 0.15, 'pre_looked': 0.03, 'near_iso': 0.1,
                       'scale_small': 0.08, 'num_int': 0.02, 'num_npint': 0.02, 'axes_readonly': 0.04, 'whole': 0.08},
            desc='crystal-system constructors in every documented keyword form against my placement table; invariance '
                 'under the system\'s symmetry generators by my rotation and by transform()'),
-    Clause('isotropic', oracle_isotropic, isotropic_cases, quick=2700, thorough=70000,
+    Clause('isotropic', _ledgered(oracle_isotropic), isotropic_cases, quick=2700, thorough=70000,
            min_share={'nt': 0.4, 'nu0': 0.04, 'npfloat': 0.25, 'reuse': 0.19, 'pre_looked': 0.05, 'scale_small': 0.14, 'scale_large': 0.04},
            desc='all 15 isotropic modulus pairs (with the C11/C12/C44 aliases) give the tensor of (E, nu); rotation invariance'),
-    Clause('rotate', oracle_rotate, rotate_cases, quick=3600, thorough=90000,
+    Clause('rotate', _ledgered(oracle_rotate), rotate_cases, quick=3600, thorough=90000,
            min_share={'nt': 0.4, 'nonunit_axes': 0.15, 'symmetry_element': 0.02, 'near_iso_rotates': 0.08, 'tiny_numbers_rotate': 0.012,
                       'pre_looked': 0.13, 'tol_given': 0.25, 'tol_zeroes_something': 0.02, 'route_model': 0.04, 'route_named': 0.05,
                       'scale_small': 0.1},
            desc='transform against my own tensor rotation; identity, composition, inverse; strain energy of co-rotated '
                 'strain; Voigt/Reuss/Hill bulk and shear against invariants and unchanged by rotation'),
-    Clause('history', oracle_history, history_cases, quick=1800, thorough=40000,
+    Clause('history', _ledgered(oracle_history), history_cases, quick=1800, thorough=40000,
            min_share={'nt': 0.22, 'back_to_earlier': 0.08, 'redefined_twice_after_reads': 0.13, 'scribble': 0.25, 'start_empty': 0.2,
                       'route_model': 0.07, 'route_named': 0.1},
            desc='one object defined and re-defined 2-5 times through every setter (all array-like input forms), '
                 'crystal-system method and model(), also back to an earlier tensor, with judged reads of every derived '
                 'quantity in between, writes to returned arrays, full representation check and a final rotation'),
-    Clause('normalize', oracle_normalize, normalize_cases, quick=4500, thorough=100000,
+    Clause('normalize', _ledgered(oracle_normalize), normalize_cases, quick=4500, thorough=100000,
            min_share={'nt': 0.3, 'fixed_point': 0.08, 'is_normal_false': 0.2, 'is_normal_true': 0.1, 'is_normal_tols_true': 0.08,
                       'is_normal_tols_false': 0.14, 'pre_looked': 0.1, 'near_iso': 0.08},
            max_share={'refusal': 0.2},
            desc='normalized_as idempotent, result has the form of the system, is_normal true on it and on tensors built '
                 'from that system\'s constants; is_normal both directions; monoclinic refused'),
+    Clause('units', _ledgered(oracle_units), units_cases, quick=1300, thorough=30000,
+           min_share={},
+           desc='the physical tensor in working units set by reset_units (named units, integer seed, SI): the same build / '
+                'representations / rotation / moduli / is_normal / model(unit=) sequence under an earlier configuration, then '
+                'in the same process under another; models written under one configuration read under a third; objects, arrays '
+                'and models of the earlier stages must not move'),
+    Clause('combos', _ledgered(oracle_combos), enumerate=combo_list, quick=1, thorough=1,
+           min_share={},
+           desc='enumerated: every ordered pair of definition routes of one object x every read in between x every '
+                'representation read first; the 15 isotropic pairs x alias spellings x keyword order x number type x fresh / '
+                're-used object; model(unit, crystal_system) option pairs per crystal system followed by a full look and both '
+                'read-backs; normalized_as / is_normal for every (source, target) system pair'),
 ]
